@@ -1,16 +1,16 @@
 SPECIFICATION Spec
 CONSTANTS
   Vers = {"sasl"}
-  Mechs = {"PLAIN", "DIGEST-MD5"}
-  Creds = {"right", "wrongPw", "victimOwnSecret", "empty"}
+  Mechs = {"DIGEST-MD5"}
+  Creds = {"right", "wrongPw", "otherUser", "victimOwnSecret", "empty"}
   BindRes = {"ra"}
   Kinds = {"message", "presence", "iq"}
   Froms = {"absent", "own", "ownBare", "victim", "other", "ownOtherRes", "ownSibling", "ownCase", "ownSlash", "ownPrefix", "ownDomain", "ownLookalike"}
   Tos = {"victimBare", "victimFull", "domain", "absent"}
   Stanzas <- NoStanzas
-  MaxPending = 1
-  MaxRetry = 2
-  MaxHist = 5
+  MaxPending = 2
+  MaxRetry = 0
+  MaxHist = 7
 CONSTRAINT Bound
 ACTION_CONSTRAINT EmitSaslOnly
 CHECK_DEADLOCK FALSE
